@@ -591,11 +591,50 @@ def stale_loop_state(f):
             binside = {x['i'] for x in walk(body)}
             writes = [r for r in refs if is_write(r) and r['i'] in binside]
             reads = [r for r in refs if not is_write(r) and r['i'] in binside]
+            # a container that is only ever appended to inside the loop (never assigned or cleared there) and used nowhere else: what one
+            # iteration collected is still in it when the next one asks `empty()` / walks it
+            t_ = (v.get('t') or '')
+            if any(k_ in t_ for k_ in ('std::vector<', 'std::set<', 'std::map<', 'std::list<', 'std::deque<')):
+                def _mcall(r, names):
+                    p_ = f.parent(r)
+                    return p_ is not None and p_.get('k') == 'Call' and p_.get('mc') and p_.get('c') and p_['c'][0] is r and p_.get('fn') in names
+                clears = [r for r in refs if r['i'] in binside and _mcall(r, ('clear',))]
+                appends = [r for r in refs if r['i'] in binside and _mcall(r, ('push_back', 'emplace_back', 'insert', 'emplace'))]
+                if appends and not writes and not clears and len(reads) > len(appends):
+                    # a "seen so far" list that is only asked whether it already holds an element (std::find / count over it, .count(x), .find(x)) is MEANT to
+                    # remember across iterations; what must not carry over is a collection whose size / emptiness / elements decide something
+                    def _membership(r):
+                        p_ = f.parent(r)
+                        while p_ is not None and p_.get('k') in ('Cast', 'Temp', 'Bind', 'Construct', 'Paren'):
+                            p_ = f.parent(p_)
+                        if p_ is not None and p_.get('k') == 'Call' and not p_.get('opc') and not (p_.get('mc') and p_.get('c') and p_['c'][0] is r):
+                            return True      # handed to a function as a whole (e.g. "the names seen so far"): what that function does with it is its business
+                        p_ = f.parent(r)
+                        if p_ is not None and p_.get('k') == 'Call' and p_.get('mc') and p_.get('c') and p_['c'][0] is r:
+                            if p_.get('fn') in ('count', 'find', 'contains'):
+                                return True
+                            if p_.get('fn') in ('begin', 'end', 'cbegin', 'cend'):
+                                a_ = f.parent(p_)
+                                while a_ is not None and a_.get('k') in ('Cast', 'Temp', 'Bind', 'Construct', 'Paren'):
+                                    a_ = f.parent(a_)
+                                if a_ is not None and a_.get('k') == 'Call' and (a_.get('callee') or '') in ('std::find', 'std::find_if', 'std::count', 'std::count_if', 'std::any_of', 'std::none_of'):
+                                    return True
+                                if a_ is not None and a_.get('k') in ('Bin', 'Call') and (a_.get('op') or a_.get('opc')) in ('==', '!='):
+                                    return True      # `it != x.end()` of such a search
+                        return False
+                    deciding = [r for r in reads if r not in appends and not _membership(r)]
+                    if deciding:
+                        yield v, L, deciding
+                    continue
+                if clears:
+                    writes = writes + clears
+                    reads = [r for r in reads if r not in clears]
             if not writes or not reads:
                 continue
             fs = body['c'][0] if body.get('k') == 'Compound' and body.get('c') else body
             wids = [f.parent(w)['i'] for w in writes]
             yield v, L, [r for r in reads if not _all_paths_pass(cfg, fs, r, wids)]
+            # (for containers `clear()` counts as the write of the iteration)
 
 
 def rule_loop_state(F, rep, rid, pred, where_txt):
@@ -1130,6 +1169,37 @@ def unsorted_uniques(f):
             if not any(cfg is not None and cfg.node_dominates(s, c) for s in sorts):
                 out.append(c)
     return out
+
+
+def unsorted_searches(f):
+    """Calls of std::lower_bound / upper_bound / binary_search / equal_range over a range of a sequence container that was not sorted
+    (std::sort / std::stable_sort over the same range start) on every path before."""
+    out = []
+    cfg = f.cfg()
+    for c in f.walk():
+        if c.get('k') == 'Call' and c.get('callee') in ('std::lower_bound', 'std::upper_bound', 'std::binary_search', 'std::equal_range') and c.get('c'):
+            rng = render(c['c'][0])
+            sorts = [s for s in f.walk() if s.get('k') == 'Call' and s.get('callee') in ('std::sort', 'std::stable_sort') and s.get('c') and render(s['c'][0]) == rng]
+            if not any(cfg is not None and cfg.node_dominates(s, c) for s in sorts):
+                out.append(c)
+    return out
+
+
+def rule_sorted_search(F, rep, rid, pred, where_txt):
+    from facts import AnalysisBroken, fixture_funcs
+    rep.rule(rid, 'a binary search (std::lower_bound / upper_bound / binary_search / equal_range over a vector range) in %s is preceded by a sort of the same range: over a list kept in insertion order it misses elements, '
+                  'and which ones depends on the order of the other entries (a duplicated name is reported or not depending on its neighbours)' % where_txt)
+    fx = fixture_funcs('uniq')
+    if len(unsorted_searches(fx['fixtureSearchBad'])) != 1 or unsorted_searches(fx['fixtureSearchGood']):
+        raise AnalysisBroken('%s: the detector does not separate the two fixture functions (sa/fixtures/src/uniq.cpp)' % rid)
+    n = 0
+    for g in F.funcs.values():
+        if not pred(g):
+            continue
+        n += 1
+        for c in unsorted_searches(g):
+            rep.fail(rid, '%s|%s' % (g.short.split('::')[-1], render(c)[:50]), g.where(c), '%s searches `%s` by bisection although the range is not sorted there' % (g.short, render(c)[:60]))
+    rep.ok(rid, 'scan', None, 'no binary search over an unsorted range in %d functions of %s (fixture: 1 of 2 functions flagged, as expected)' % (n, where_txt))
 
 
 def rule_unique_sorted(F, rep, rid, pred, where_txt):
